@@ -158,6 +158,37 @@ theorem encode_decode_encode (σ : Schema) (ann : Ann) (t : Val)
   · rw [h2]; simp only [canon, canon_annotate]
   · rw [reencode_root σ ann t hs, h1]
 
+/-- Byte-identical re-encoding on the well-formed region, for EVERY `Pos()`/`End()` function: the
+    extra hypotheses w.r.t. `encode_decode_encode_statement` are exactly that the tree holds no
+    recovered position (the region of the open finding C15-reencode-recovered-posend, see
+    `reencode_recovered_differs`) and no empty-but-non-nil slice (so that the decoded tree is the
+    original one as far as any method can see: `canon t = forget t`). -/
+theorem encode_decode_encode_partial (σ : Schema) (ann : Ann) (t : Val)
+    (h : wf σ (.iface "Node") (.iface (annotate ann t)) = true)
+    (hr : noRecovered t = true) (hne : noEmptySlice t = true) :
+    ∃ j d, encodeRoot σ (annotate ann t) = .val j ∧ decodeRoot σ j = .ok (.iface d) ∧
+      encodeRoot σ (annotate ann d) = .val j :=
+  encode_decode_encode σ ann t h (peStable_of_noRecovered ann t hr hne)
+
+/-- The strongest form given the open finding: for every `Pos()`/`End()` function that cannot tell
+    a nil slice from an empty one (true of nodes.go: the methods only use `len` and `range`), the
+    re-encoding is byte-identical for EVERY JsonWF tree without a recovered position — recovered
+    positions are excluded exactly (`reencode_recovered_differs` is the counter-example there). -/
+theorem encode_decode_encode_no_recovered (σ : Schema) (ann : Ann) (hb : annSliceBlind ann) (t : Val)
+    (h : wf σ (.iface "Node") (.iface (annotate ann t)) = true) (hr : noRecovered t = true) :
+    ∃ j d, encodeRoot σ (annotate ann t) = .val j ∧ decodeRoot σ j = .ok (.iface d) ∧
+      encodeRoot σ (annotate ann d) = .val j :=
+  encode_decode_encode σ ann t h (peStable_of_blind ann hb t hr)
+
+/-- …and the decoded tree is then literally the original one (annotations aside). -/
+theorem decode_encode_no_recovered (σ : Schema) (v : Val) (h : wf σ (.iface "Node") (.iface v) = true)
+    (hr : noRecovered v = true) (hne : noEmptySlice v = true) :
+    ∃ j, encodeRoot σ v = .val j ∧ decodeRoot σ j = .ok (forget (.iface v)) := by
+  obtain ⟨j, h1, h2⟩ := round_root σ v h
+  refine ⟨j, h1, ?_⟩
+  rw [h2, canon_eq_forget (.iface v) (by simpa only [noRecovered] using hr)
+    (by simpa only [noEmptySlice] using hne)]
+
 /-- The full statement of byte-identical re-encoding, without the hypothesis on `Pos()`/`End()`.
     It is FALSE (`encode_decode_encode_statement_false`): a `Pos()`/`End()` that looks at a recovered
     position may give another answer once the position is cleared. -/
@@ -240,6 +271,10 @@ theorem invalid_utf8_not_roundtrip :
        | _ => false
      | .panic => false) = true := by
   decide +kernel
+
+/-- Non-vacuity of `annSliceBlind`: the constant method is slice-blind; `annFallback`, which looks at
+    the first position field only, is too (positions are untouched by `nilEmpty`/`forget`). -/
+example : annSliceBlind (fun _ _ => some (⟨1, 16385⟩, ⟨2, 16386⟩)) := fun _ _ => rfl
 
 /-- The round trip for the code as it is now: every JsonWF tree over the current node schema. -/
 theorem decode_encode_real (v : Val) (h : wf real (.iface "Node") (.iface v) = true) :
